@@ -1,12 +1,12 @@
 SPECIFICATION Spec
 CONSTANTS
   Workers = {w1}
-  Clients = {c1, c2, c3}
+  Clients = {c1, c2}
   Digests = {d1, d2}
   NoCache = {d2}
   Invs = {"i1", "i2"}
   MaxTasks = 2
-  MaxOps = 3
+  MaxOps = 2
   RetryLimit = 1
   Predeclared = TRUE
   AllowRequeue = TRUE
